@@ -36,8 +36,8 @@ LEVEL_TEXT = ('build_diff/apply_diff are executed on every ordered pair of a '
               'closed bounded family and on every bounded edit chain; result, '
               'root identity and immutability of diff/new/old are checked.')
 LEVEL_NOTE = ('Trusted: mc.canon. Bounds: family of a few hundred shapes x '
-              'tag variants (quick), ~1-2 thousand (thorough); edit chains '
-              '<= 2 / 3.')
+              'tag variants (quick); plus a family with two distinct leaves and '
+              'all tag variants (thorough); edit chains <= 2.')
 
 
 def mk(cls, fn):
@@ -87,6 +87,7 @@ FAMILIES = {
     'S3': (['cfg', 'list2'], 3, 1),
     'B': (['cfg', 'cfgb', 'ckw', 'par', 'list2', 'tuple2', 'dict1', 'dict0',
            'list0'], 2, 2),
+    'B2': (['cfg', 'ckw', 'par', 'list2', 'tuple2', 'dict1'], 2, 2),
 }
 LEAVES = ['L1', 'L2']
 NCHUNK = 32
@@ -95,7 +96,7 @@ NCHUNK = 32
 def bounds(tier):
   if tier == 'quick':
     return dict(families=['A', 'P', 'S3'], edits=2)
-  return dict(families=['B', 'P', 'S3'], edits=3)
+  return dict(families=['A', 'B2', 'P', 'S3'], edits=2)
 
 
 def units(tier, seed):
